@@ -88,7 +88,8 @@ def parse_certificate(wire) -> CertificateV2Value:
 
 def new_cert(key_name, issuer_id_component, pub_key, signer, start_time, end_time) -> tuple[FormalName, VarBinaryStr]:
     cert_val = CertificateV2Value()
-    cert_name = Name.normalize(key_name) + [issuer_id_component, Component.from_version(timestamp())]
+    # (a copy of the issuer id: the returned name belongs to the caller, the module-level constants do not)
+    cert_name = Name.normalize(key_name) + [bytearray(issuer_id_component), Component.from_version(timestamp())]
     cert_val.name = cert_name
     cert_val.content = pub_key
     cert_val.meta_info = MetaInfo(content_type=ContentType.KEY, freshness_period=3600000)
